@@ -91,7 +91,9 @@ def run(st, tier, seed):
         if rng.random() < 0.5:
             r0 = impl.compile_bundle(b, "pil")
             if r0["ok"]:
-                cands = [s_ for s_ in pilio.read_pil(r0["text"]) if s_["k"] == "seq" and "_Anon" not in s_["name"] and s_["tmpl"]]
+                st0 = pilio.read_pil(r0["text"])
+                signal_names = {s_["items"][0] for s_ in st0 if s_["k"] == "equal" and s_["items"]}   # connectors are not saved objects
+                cands = [s_ for s_ in st0 if s_["k"] == "seq" and "_Anon" not in s_["name"] and s_["tmpl"] and s_["name"] not in signal_names]
                 rng.shuffle(cands)
                 lines_ = []
                 for s_ in cands[:rng.randint(1, 3)]:
